@@ -10,8 +10,11 @@ for d in sorted(glob.glob(os.path.join(V, "fixes", "*"))):
     fj, mj, cj = (os.path.join(d, x) for x in ("finding.json", "meta.json", "commit.txt"))
     if os.path.exists(fj):
         f = json.load(open(fj))
-        findings.append({"id": f.get("id", name), "properties": f["properties"], "key": f["key"], "what": f["what"],
-                         "why_not_fixed": f.get("why_not_fixed", ""), "repro": f"fixes/{name}/repro.py", "status": "open"})
+        # one entry per listed key (a finding with several crash sites names each of them: anything else is still reported)
+        for n, key in enumerate(f.get("keys") or [f["key"]]):
+            findings.append({"id": f.get("id", name) + (f"#{n + 1}" if n else ""), "properties": f["properties"], "key": key,
+                             "what": f["what"] if n == 0 else f"(same finding as {f.get('id', name)}: another crash site) " + f["what"][:300],
+                             "why_not_fixed": f.get("why_not_fixed", ""), "repro": f"fixes/{name}/repro.py", "status": "open"})
     elif os.path.exists(mj) and os.path.exists(cj):
         m = json.load(open(mj)); commit = open(cj).read().strip()
         what = open(os.path.join(d, "message.txt")).readline().strip()
